@@ -30,7 +30,7 @@ CHECKS = {
  "C09": dict(engine="dynmock", technique="runtime monitoring: random lifecycle event sequences judged by a lifecycle automaton",
    text="Each lifecycle operation (clone, drop, verify, report, no_verify_in_drop, move to thread, make_ref, verify on clone) is compared with the lifecycle automaton of Spec-M: silent / which panic / which ExitCode.", ref="5 C09", note=A_NOTE),
  "C14": dict(engine="dynmock", technique="runtime monitoring: clause trees through the real tuple impls (every arity 2..16 forced in turn), inconsistent setups injected at random positions",
-   text="Pattern order and slot ranges after construction (hook H2) and the accepted call sequence must equal the depth-first leaf order; mixed-mode / empty-stub / unproducible-return setups must panic in the constructor.", ref="5 C14", note=A_NOTE + " The compile-time half (type-state) is sampled by the compile probe when present."),
+   text="Pattern order and slot ranges after construction (hook H2) and the accepted call sequence must equal the depth-first leaf order; mixed-mode / empty-stub / unproducible-return setups must panic in the constructor. A stage of generated programs with composite return types, built against the no_std configuration without a lock, checks that exactly the single-use values with an owned part are refused at construction.", ref="5 C14", note=A_NOTE + " The compile-time half (type-state) is sampled by the compile probe when present."),
  "C10": dict(engine="sched", technique="runtime monitoring: controlled scheduler over instrumented atomics/locks (hook H3), linearizability checking of recorded histories against Spec-M, 16-thread stress with conservation laws, TSan/Miri in the thorough tier",
    text="Every schedule of small cases (<= 4 calls, <= 3 threads) is enumerated depth-first, larger ones sampled (random, PCT); each history recorded at the client boundary must be linearizable w.r.t. Spec-M with matching final counters and verification text. Stress runs are judged by conservation (each chain position / ordered slot handed out exactly once).", ref="5 C10", note="Sequentially consistent interleavings at hook granularity only; Spec-M trusted as in engine A; scheduler in engines/harness/src/sched.rs."),
  "C11": dict(engine="crashbox", technique="runtime monitoring by fault injection: every (crash point x instance topology x met/unmet) scenario runs in a child process whose exit status and panic reports are the observed events; plus caught-user-panic histories judged by Spec-M",
